@@ -123,7 +123,12 @@ def main(tier, seed):
     B = BOUNDS[tier]
     # union-find: Kani / CBMC on the real file
     n, k = B['kani']
-    kr = kaniuf.run(n, k, chk.log, timeout=1500 if tier == 'quick' else 6000)
+    if os.environ.get('VERIF_MATRIX_SKIP_KANI'):
+        # only set by seeded/run_against.sh for a seeded change that does not touch union_find.rs (the registered commands never set it)
+        kr = {'summary': 'skipped (matrix run, union_find.rs untouched)', 'wall_s': 0.0, 'harnesses': {'skipped': {'successful': True, 'unwinding_failed': False, 'failed_checks': [],
+              'covers': [('SATISFIED', 'three elements merged'), ('SATISFIED', 'still separate'), ('SATISFIED', 'unify with an old element')]}}}
+    else:
+        kr = kaniuf.run(n, k, chk.log, timeout=1500 if tier == 'quick' else 6000)
     chk.log('kani union-find n=%d k=%d: %s (%.0fs)' % (n, k, kr['summary'], kr['wall_s']))
     kani_ok = bool(kr['harnesses']) and all(h['successful'] and not h['unwinding_failed'] for h in kr['harnesses'].values())
     mine = [c for h in kr['harnesses'].values() for c in h['covers'] if c[1] in ('three elements merged', 'still separate', 'unify with an old element')]
